@@ -752,6 +752,8 @@ func init() {
 		// evaluation writes only what it allocates
 		r.importing = "C13"
 		checkEffects(r, prog, a, "c13", true)
+		r.importing = "C18"
+		checkGetOpts(r, prog, a, "c18") // … and starts from options of its own: defaults that are built, not a shared value with a list inside
 		r.importing = ""
 		r.Technique = "census of unordered-sequence sources (MapKeys, MapRange, range over map, maps.Keys/Values) in all module functions reachable from the API; per source a shape decision: sorted-before-use by dominance (with a check that sort.Slice's less orders the very slice being sorted), single-exit-class consuming loop with commuting effects (path analysis of in-loop returns), or collect-then-sort"
 		r.Explain = "Each place where Go's random map order can enter is one rule instance and must be in a safe shape: the key slice is sorted by a call that dominates every element access, and for sort.Slice the less function captures only the sorted slice and compares the same function of elements i and j with a strict order; or the consuming loop carries no value besides the position, every return inside it is an error return, and its only effects are insertions into a map made in the same function under the entry's own key; or keys are only collected and sorted before any use. The property then follows because no result depends on which entry is visited first. NOT decided: order dependence inside pointerstructure (read, trusted); which of several element errors is reported by Filter over a map (the statement asks for the error-or-not outcome)."
